@@ -242,6 +242,8 @@ impl IValue<i64> for NodeId {
             i.is_writable(device, store, cx)
         } else if let Some(f) = self.as_ifloat_kind(store) {
             f.is_writable(device, store, cx)
+        } else if let Some(e) = self.as_ienumeration_kind(store) {
+            e.is_writable(device, store, cx)
         } else {
             Ok(false)
         }
@@ -313,6 +315,8 @@ impl IValue<f64> for NodeId {
             i.is_writable(device, store, cx)
         } else if let Some(f) = self.as_ifloat_kind(store) {
             f.is_writable(device, store, cx)
+        } else if let Some(e) = self.as_ienumeration_kind(store) {
+            e.is_writable(device, store, cx)
         } else {
             Ok(false)
         }
